@@ -92,6 +92,11 @@ pub trait Part: 'static {
     fn show(case: &Self::Case) -> serde_json::Value {
         serde_json::to_value(case).unwrap_or(serde_json::Value::Null)
     }
+    /// lets a part attach case-specific detail to the signature of a process death (used to
+    /// key known findings on the shape that crashed instead of on "stack overflow" alone)
+    fn refine_crash(_case: &Self::Case, signature: &str) -> String {
+        signature.to_string()
+    }
     /// a finite list of cases to run completely (used by enumerated isolated runs)
     fn enumeration(_tier: Tier) -> Vec<Self::Case> {
         vec![]
